@@ -29,7 +29,7 @@ var (
 	errCreateNewDirectory = errors.New("failed to create new directory")
 	errDAGFileEmpty       = errors.New("dagFile is empty")
 
-	rTimestamp = regexp.MustCompile(`2\d{7}.\d{2}:\d{2}:\d{2}`)
+	rTimestamp = regexp.MustCompile(`2\d{7}.\d{2}:\d{2}:\d{2}(\.\d{3})?`)
 )
 
 const (
